@@ -367,3 +367,36 @@ def check_C08(chk):
             break
     chk.extra["events_validated"] = chk.traces
     chk.traces = max(0, run["evaluations"] - len(chk.violations))
+
+
+COST_CONST = dict(A=256, B=64, Ratio=3, MinKiB=64, CallsPerKiB=2048)
+
+
+def cost_describe(ev):
+    return ("parse cost is not linear: family %s n=%s mode=%s: %s KiB offered, %s KiB consumed, %s KiB allocated "
+            "(peak %s KiB, %s calls), %s ms, status %s" % (
+                ev.get("family"), ev.get("n"), ev.get("mode"), ev.get("kib_in"), ev.get("kib_used"),
+                ev.get("alloc_kib"), ev.get("peak_kib"), ev.get("calls"), ev.get("ms"), ev.get("status")))
+
+
+def check_C15(chk):
+    q = chk.tier == "quick"
+    chk.rule = ("M: MC_Wire's cost counter (one unit per parser step plus the size of whatever a closing collection "
+                "copies) stays <= CostC * tokens on every stream of the bound; R/V: 13 input families (nesting open / "
+                "closed / with members, repeated 30-deep chains, set width, attributes, same-name attributes, groups, "
+                "members, member values, stray end-collections, value length, name length), sizes doubling from 16 KiB "
+                "to 1 MiB (4 MiB thorough), blocking and async parser, each parse in a child process under a counting "
+                "allocator; distinct = (family, size, parser) triples; judged by Trace_Cost (A=256 B/B, doubling ratio "
+                "<= 3)")
+    chk.assumptions = ["CPU work is observed through allocation counts; wall-clock only as a back-stop (3 s + 10 ms/KiB)",
+                       "constants from DESIGN.md section 6 C15", "TLC"]
+    build_harness()
+    wd = workdir("C15")
+    r = mc("C15", "mc_wire", "MC_Wire.tla", dict(WIRE_CONST, MaxTok=6 if q else 7, MaxDepth=3), WIRE_INV,
+           constraint="Bound")
+    chk.add_mc(r, "MC_Wire MaxDepth=3 LinearCost")
+    out = os.path.join(wd, "run")
+    harness("vh", ["cost", "--out", out, "--seed", chk.seed, "--tier", chk.tier], timeout=3600)
+    run = run_sample(chk, out)
+    validate_with_retries(chk, "trace_cost", "Trace_Cost.tla", os.path.join(out, "trace.ndjson"),
+                          os.path.join(out, "trace.side.ndjson"), constants=COST_CONST, describe=cost_describe)
